@@ -106,6 +106,23 @@ MULTICUT = [
 ]
 
 
+# a hub fragment with fourteen cut bonds, cuts labelled 1..14 (labels of two characters, labels that end in a digit
+# and differ only by it: 1 / 11, 2 / 12 ...)
+HUB = ("FC(Cl)(Br)C(F)(Cl)C(Br)(F)C(Cl)(Br)C(F)(Cl)C(Br)(F)Cl", {1, 4, 7, 10, 13, 16})
+
+
+def hub_blocks():
+    backbone = HUB[1]
+    blocks, nxt = {}, 1
+    for n in range(20):
+        if n in backbone:
+            blocks[n] = 0
+        else:
+            blocks[n] = nxt
+            nxt += 1
+    return blocks
+
+
 def random_partition(g, rng, nblocks):
     """Partition the atoms into connected blocks (all bonds between different blocks are cut)."""
     nodes = list(g.nodes)
@@ -435,7 +452,7 @@ def label_for(i):
 
 
 def make_cut_config(g, block, rng, kinds=("$", "<>"), share=0.0, style=None, prefix="F", label_offset=0,
-                    marks=None, cutmark="both", share_hub=False):
+                    marks=None, cutmark="both", share_hub=False, numeric=False):
     """
     Build the CGsmiles configuration of molecule g cut along partition `block` (node -> block id).
     Returns dict(base tokens, frags [[name, tokens]], member: atom -> set(blocks in base numbering),
@@ -465,7 +482,7 @@ def make_cut_config(g, block, rng, kinds=("$", "<>"), share=0.0, style=None, pre
     copies = {}         # (block, copy node key) -> original atom
     shared_ends = set()
     for i, (a, b) in enumerate(cuts):
-        lab = label_for(i + label_offset)
+        lab = str(i + 1 + label_offset) if numeric else label_for(i + label_offset)
         o2 = ord2(g.edges[a, b].get("order", 1))
         order = 1 if o2 == 3 else o2 // 2
         if o2 == 3 and not (g.nodes[a].get("aromatic") and g.nodes[b].get("aromatic")):
